@@ -41,6 +41,18 @@ CHECKS = {
         note='proved over commutative rings (hence R and Q); float64 rounding of the implementation is not proved - exact-rational '
              'correspondence with an error bound; loop->recursion step of the triangular update validated by that correspondence. ' + TB,
         technique='Lean 4 proof (induction over coefficient lists, Mathlib Polynomial) + exact-rational correspondence'),
+    'C13': dict(
+        text='Lean 4 theorems about the NITF fixed-width field codec, for every width, value, record length and loop count: zero-filled '
+             'signed decimal and blank-filled text rendering have exactly the declared width when the value is accepted at assignment; '
+             'decode(encode v ++ rest) = (v, rest) for fields, records (any list of fields) and counted loops; record length = sum of '
+             'declared widths; an accepted value never spills into the neighbouring field. Field kinds, widths, loops and the list of '
+             'classes with hand-written byte logic are re-read from the element classes by reflection on every run; every generated '
+             'instance is re-encoded by the Lean codec and compared with to_bytes byte for byte.',
+        design='DESIGN.md 3.5, 6/C13',
+        note='proved: field/record/loop codec. Correspondence only: classes overriding byte-level methods (their parts enter the model as '
+             'opaque raw fields), TREs (captured payloads only), NITF 2.0 symbol/label specifics. Standard-side lengths are a hand '
+             'transcription of MIL-STD-2500C. ' + TB,
+        technique='Lean 4 proof (induction on widths/field lists) + reflection translator + byte-exact correspondence'),
 }
 
 
